@@ -71,6 +71,29 @@ def scenario_from(job, o):
         seq = "".join(inv.get(int(d.get("VC_OP%d" % i, "0")), "") for i in range(24))
         nm = bytes([int(d["VC_NM0"], 0), int(d["VC_NM1"], 0)]) if "VC_NM0" in d else (_trace_array(tr, "nm", 2) or b"ab")
         return "\n".join(["kind parser_seq"] + lines + ["calls " + seq, "name_a %02x" % nm[0], "name_b %02x" % nm[1]]) + "\n"
+    def tv(name):
+        for t in reversed(tr):
+            if t.get("lhs") == name and t.get("value") is not None:
+                try:
+                    return int(str(t["value"]).rstrip("ul").replace("TRUE", "1").replace("FALSE", "0"))
+                except ValueError:
+                    if t.get("bin"):
+                        b = t["bin"].replace(" ", "")
+                        v = int(b, 2)
+                        return v - (1 << len(b)) if b[0] == "1" and "i64" in name else v
+        return None
+    if job.entry == "h__parse_integer":
+        n = tv("vc_wit_an"); a = _trace_array(tr, "vc_wit_a", 8); fl = tv("vc_wit_flag")
+        if n and a is not None and fl is not None:
+            return "kind parse_integer\nbuffer %s\ncheck %d\n" % (a[:n].hex(), 1 if fl else 0)
+    if job.entry in ("h__cmp_name", "h__cmp_name_direct"):
+        an, bn = tv("vc_wit_an"), tv("vc_wit_bn"); a = _trace_array(tr, "vc_wit_a", 8); b = _trace_array(tr, "vc_wit_b", 8)
+        if an is not None and bn is not None and an <= 8 and bn <= 8 and a is not None and b is not None:
+            return "kind cmp_name\nname_a %s\nname_b %s\n" % (a[:an].hex(), b[:bn].hex())
+    if job.entry == "h__int_pack_size":
+        v = tv("vc_wit_i64"); fl = tv("vc_wit_flag")
+        if v is not None and fl is not None:
+            return "kind int_pack\nvalue %d\nis_double %d\n" % (v, 1 if fl else 0)
     return None
 
 
